@@ -374,7 +374,10 @@ def r17_6(ctx, counts) -> RuleResult:
         'behind; (b) the chunks returned by `tostringlist()` are arbitrary pieces of the output '
         '(about 8 KiB each for ElementTree): they are joined with the empty string, a separator '
         'lands inside tags and text. Every strip call in the module takes a string literal or '
-        'nothing; every join applied to a tostringlist() result uses an empty separator.')
+        'nothing; every join applied to a tostringlist() result uses an empty separator; (c) a '
+        'run-time string of the tree matched against serialized text (endswith/startswith/'
+        'removesuffix with a non-literal) is matched in its escaped form: the function, or every '
+        'caller for it, applies an XML escape function.')
     mod = model.modules.get('elementpath.serialization')
     if mod is None:
         raise AnalysisError('elementpath/serialization.py vanished')
@@ -412,9 +415,51 @@ def r17_6(ctx, counts) -> RuleResult:
                                      f'`{stmt_text(c)[:50]}` joins the pieces returned by '
                                      f'tostringlist() with {stmt_text(sep)}: the separator lands '
                                      f'inside tags and text of any document larger than one chunk'))
+    # (c) a run-time suffix/prefix cut from serialized text is matched in its escaped form
+    m = 0
+    funcs = [g for g in model.all_functions() if g.module is mod]
+    for f in sorted(funcs, key=lambda q: q.key):
+        params = [a.arg for a in f.node.args.args]
+        for c in walk_local(f.node):
+            if not (isinstance(c, ast.Call) and isinstance(c.func, ast.Attribute)
+                    and c.func.attr in ('endswith', 'startswith', 'removesuffix', 'removeprefix')
+                    and c.args and not isinstance(c.args[0], (ast.Constant, ast.JoinedStr))):
+                continue
+            recv = stmt_text(c.func.value)
+            cuts = c.func.attr.startswith('remove') or any(
+                isinstance(y, ast.Subscript) and stmt_text(y.value) == recv
+                and isinstance(y.slice, ast.Slice) and 'len(' in stmt_text(y.slice)
+                for y in walk_local(f.node))
+            if not cuts:
+                continue            # a test, not a cut of the text
+            m += 1
+
+            def is_escape(e: ast.AST) -> bool:
+                return isinstance(e, ast.Call) and 'escape' in dotted(e.func).split('.')[-1]
+            inside = any(is_escape(y) for y in walk_local(f.node))
+            # or: every caller in the module passes an escaped string for each str parameter
+            callers = [y for g in funcs for y in walk_local(g.node) if isinstance(y, ast.Call)
+                       and dotted(y.func).split('.')[-1] == f.name and g is not f]
+            outside = bool(callers) and all(any(is_escape(a) for a in y.args) or any(
+                is_escape(k.value) for k in y.keywords) for y in callers)
+            res.instances.append(f'{f.key}: `{stmt_text(c)[:40]}` on serialized text; escaped '
+                                 f'form considered in the function={inside} by every caller='
+                                 f'{outside} ({len(callers)} callers, parameters {params})')
+            if inside or outside:
+                res.ok()
+            else:
+                res.fail(finding('R17.6', f, c, f'raw {c.func.attr}({stmt_text(c.args[0])[:20]})',
+                                 f'`{stmt_text(c)[:50]}` matches a string of the tree against '
+                                 f'serialized text without its escaped form: a tail containing '
+                                 f'& < > is written as &amp; &lt; &gt; and is not removed, so '
+                                 f'serialize(b) for <a><b>x</b>a&amp;b</a> keeps the tail and the '
+                                 f'output does not parse back'))
     counts['serializer_text_edits'] = n
+    counts['serializer_suffix_matches'] = m
     if n < 2:
         raise AnalysisError(f'only {n} strip/join sites located in the serializer')
+    if m < 1:
+        raise AnalysisError('the tail-removing suffix match of the serializer was not located')
     return res
 
 
